@@ -173,3 +173,115 @@ example : rcSpec 0x1C4 = .named .fmt1 4 (.parameter 1) ∧ rcSpec 0x922 = .named
     rcSpec 0xFFFF0984 = .named .fmt1 4 (.session 1) := by decide
 
 end C18
+
+/-! ### the rows' free-text details carry the classification of the text form -/
+
+namespace C18
+
+theorem single_bit (v k : Nat) : v &&& 2 ^ k = 0 ∨ v &&& 2 ^ k = 2 ^ k := by
+  cases h : v.testBit k
+  · left
+    apply Nat.eq_of_testBit_eq
+    intro j
+    simp only [Nat.testBit_and, Nat.testBit_two_pow, Nat.zero_testBit, Bool.and_eq_false_imp, decide_eq_false_iff_not]
+    intro hj hkj
+    subst hkj
+    rw [h] at hj; cases hj
+  · right
+    apply Nat.eq_of_testBit_eq
+    intro j
+    simp only [Nat.testBit_and, Nat.testBit_two_pow]
+    by_cases hkj : k = j
+    · subst hkj; simp [h]
+    · simp [hkj]
+
+theorem unset_of_not_set (v k : Nat) (h : bitsSet v (2 ^ k) = false) : bitsUnset v (2 ^ k) = true := by
+  unfold bitsSet at h
+  unfold bitsUnset
+  rcases single_bit v k with h0 | h1
+  · simp [h0]
+  · simp [h1] at h
+
+/-- the number the text form shows for a format-one code is the detail of the corresponding number row -/
+def detailIn (d : RcDetail) (ds : List (String × String)) : Prop :=
+  match d with
+  | .none => True
+  | .parameter k => ("parameterNumber", s!"Parameter No. {k}") ∈ ds
+  | .session k => ("sessionNumber", s!"Session No. {k}") ∈ ds
+  | .handle k => ("handleNumber", s!"Handle No. {k}") ∈ ds
+
+/-- **C18 (row details)**: for every table with the specification's masks and every code that the text form names (class
+`named m code d`): the `code` row's detail is the very name the text form shows, and the parameter / session / handle number of
+the text form is the detail of the corresponding number row — the rows carry the same classification as the text -/
+theorem c18_row_details (t : RcTables) (hm : t.masks = stdMasks) (v : Nat) (m : RcMap) (code : Nat) (d : RcDetail)
+    (h : rcClassify t.masks v = .named m code d) :
+    match t.name m code with
+    | none => rcRowDetails t v = none
+    | some nm => ∃ ds, rcRowDetails t v = some ds ∧ ("code", nm) ∈ ds ∧
+        detailIn d ds := by
+  unfold rcClassify at h
+  unfold rcRowDetails
+  split at h
+  · cases h
+  · rename_i hv
+    simp only [hv, if_false]
+    split at h
+    · cases h
+    · rename_i h12
+      simp only [h12, Bool.false_eq_true, if_false]
+      split at h
+      · rename_i hf
+        simp only [hf, if_true]
+        split at h
+        · cases h
+        · rename_i hvend
+          have hvu : bitsUnset v t.masks.fmt1Vendor = true := by
+            rw [hm] at hvend ⊢
+            exact unset_of_not_set v 10 (by simpa [stdMasks] using hvend)
+          simp only [hvu, if_true]
+          split at h
+          · rename_i hw
+            simp only [RcClass.named.injEq] at h
+            obtain ⟨rfl, rfl, rfl⟩ := h
+            simp only [hw, if_true]
+            cases t.name .fmt0Warn (v &&& t.masks.fmt1Code) with
+            | none => rfl
+            | some nm => exact ⟨_, rfl, by simp, trivial⟩
+          · rename_i hw
+            simp only [RcClass.named.injEq] at h
+            obtain ⟨rfl, rfl, rfl⟩ := h
+            simp only [hw, Bool.false_eq_true, if_false]
+            cases t.name .fmt0Err (v &&& t.masks.fmt1Code) with
+            | none => rfl
+            | some nm => exact ⟨_, rfl, by simp, trivial⟩
+      · rename_i hf
+        simp only [hf, Bool.false_eq_true, if_false]
+        simp only [RcClass.named.injEq] at h
+        obtain ⟨rfl, rfl, hd⟩ := h
+        cases t.name .fmt1 (v &&& t.masks.fmt0Code) with
+        | none => rfl
+        | some nm =>
+          refine ⟨_, rfl, by simp, ?_⟩
+          by_cases hp : bitsSet v t.masks.fmt0Param = true
+          · simp only [hp, if_true] at hd ⊢
+            subst hd
+            simp [detailIn]
+          · simp only [hp, Bool.false_eq_true, if_false] at hd ⊢
+            by_cases hs : bitsSet v t.masks.fmt0Session = true
+            · simp only [hs, if_true] at hd ⊢
+              subst hd
+              simp [detailIn]
+            · simp only [hs, Bool.false_eq_true, if_false] at hd ⊢
+              subst hd
+              simp [detailIn]
+
+/-- over the tables of `/repo` -/
+theorem c18_row_details_repo (v : Nat) (m : RcMap) (code : Nat) (d : RcDetail)
+    (h : rcClassify Generated.rcTables.masks v = .named m code d) :
+    match Generated.rcTables.name m code with
+    | none => rcRowDetails Generated.rcTables v = none
+    | some nm => ∃ ds, rcRowDetails Generated.rcTables v = some ds ∧ ("code", nm) ∈ ds ∧
+        detailIn d ds :=
+  c18_row_details Generated.rcTables c18_masks v m code d h
+
+end C18
